@@ -7,6 +7,7 @@ import (
 	"errors"
 	"io"
 	"os"
+	"strings"
 	"sync"
 	"sync/atomic"
 
@@ -131,6 +132,18 @@ func (d *Disk) Kill() {
 	d.mu.Unlock()
 }
 
+// WALSync selects the syncs of write-ahead log files: the calls a committing goroutine waits for. Their number and
+// order is a function of the sequence of commits alone, whereas the number of write calls per record and everything
+// pebble's flush goroutines do depends on how the goroutines happen to be scheduled.
+func WALSync(kind, name string) bool { return kind == "sync" && strings.HasSuffix(name, ".log") }
+
+// SetCountable sets Countable while goroutines of this generation may be running.
+func (f *FS) SetCountable(c func(kind, name string) bool) {
+	f.smu.Lock()
+	f.Countable = c
+	f.smu.Unlock()
+}
+
 // CrashIn arms a crash at the k-th mutating call from now (k >= 1). tear: see FS.tear.
 func (f *FS) CrashIn(k int, tear int) {
 	f.smu.Lock()
@@ -173,10 +186,11 @@ func (f *FS) step(kind, name string) error {
 	if !f.alive() {
 		halt()
 	}
+	f.smu.Lock()
 	if f.Countable != nil && !f.Countable(kind, name) {
+		f.smu.Unlock()
 		return nil // not a call crash points are counted in (see Countable)
 	}
-	f.smu.Lock()
 	n := f.ops.Add(1)
 	crashAt, failAt := f.crashAt, f.failAt
 	f.smu.Unlock()
@@ -361,7 +375,8 @@ func (f *file_) Write(p []byte) (int, error) {
 	}
 	// a crash inside Write may leave a prefix of p behind (torn write)
 	f.fs.smu.Lock()
-	tearNow := f.fs.crashAt != 0 && f.fs.ops.Load()+1 == f.fs.crashAt && f.fs.tear != 0 && len(p) > 0
+	tearNow := f.fs.crashAt != 0 && f.fs.ops.Load()+1 == f.fs.crashAt && f.fs.tear != 0 && len(p) > 0 &&
+		(f.fs.Countable == nil || f.fs.Countable("write", f.name))
 	tear := f.fs.tear
 	f.fs.smu.Unlock()
 	if tearNow {
